@@ -4,6 +4,8 @@ use crate::cx::Cx;
 use crate::drv::{boundary_lens, sl, whole, Drv};
 use serde_json::json;
 
+pub const CONSUMERS: [&str; 13] = ["next", "fold", "for_each", "collect", "count", "last", "skip1", "step2", "peekable", "enumerate", "nth1", "take3", "zip"];
+
 fn gcd(a: usize, b: usize) -> usize {
     if b == 0 { a } else { gcd(b, a % b) }
 }
@@ -41,6 +43,14 @@ pub fn run<A: Cx>(d: &mut Drv<A>, scale: usize, all: bool) {
                     let k = *d.rng.pick(&["windowsvec", "chunksvec"]);
                     d.emit(json!({"op": "itrun", "kind": k, "x": x.clone(), "y": whole(1), "w": wd}));
                 }
+            }
+            // partially advanced iterators finished by consumers that iterate internally
+            for _ in 0..6 {
+                let kind = *d.rng.pick(&["iter", "rev", "windows", "chunks"]);
+                let wd = d.rng.range(1, 4);
+                let adv = d.rng.range(0, 4);
+                let consumer = *d.rng.pick(&CONSUMERS);
+                d.emit(json!({"op": "itmix", "kind": kind, "x": x.clone(), "w": wd, "adv": adv, "consumer": consumer}));
             }
             // the iterator state machine, step by step, two iterators interleaved with an edit
             if n <= 70 {
